@@ -62,7 +62,7 @@ func newGroupEnd(tunnel bool) (*groupEnd, error) {
 		return nil
 	}
 	var err error
-	e.gt, err = knx.VerifNewGroupTunnel(e.sock, knx.TunnelConfig{ResendInterval: 50 * time.Millisecond, ResponseTimeout: 2 * time.Second, HeartbeatInterval: time.Hour})
+	e.gt, err = knx.VerifNewGroupTunnel(e.sock, knx.TunnelConfig{ResendInterval: 2 * time.Second, ResponseTimeout: 20 * time.Second, HeartbeatInterval: time.Hour})
 	return e, err
 }
 
@@ -103,7 +103,14 @@ func (e *groupEnd) dataFrames() [][]byte {
 	var out [][]byte
 	for _, f := range e.sock.Out() {
 		switch f.Svc.(type) {
-		case *knxnet.TunnelReq, *knxnet.RoutingInd:
+		case *knxnet.TunnelReq:
+			// a retransmission (the acknowledgement took longer than the resend interval on a loaded
+			// machine) is the same frame again, not another frame
+			if len(out) > 0 && bytes.Equal(out[len(out)-1], f.Bytes) {
+				continue
+			}
+			out = append(out, f.Bytes)
+		case *knxnet.RoutingInd:
 			out = append(out, f.Bytes)
 		}
 	}
